@@ -25,6 +25,10 @@ def main():
   ck = core.Check(pid, mod.LEVEL, a.tier, seed)
   ck.replay = a.replay
   try:
+    if a.replay:
+      import inspect
+      if "ck.replay" not in inspect.getsource(mod):     # modules that read ck.replay handle it themselves
+        return core.replay_case(ck, a.replay)
     mod.run(ck)
     return ck.finish()
   except core.MachineryError as e:
